@@ -176,9 +176,46 @@ type omapIter struct {
 func newOmapIter(m *omap) *omapIter {
 	it := &omapIter{m: m}
 	if m != nil {
-		it.keys = append(it.keys, m.ents...)
+		for _, e := range m.ents {
+			if !e.deleted {
+				it.keys = append(it.keys, e)
+			}
+		}
+	}
+	if MapOrderPermute && len(it.keys) > 1 {
+		it.keys = permuteEntries(it.keys)
 	}
 	return it
+}
+
+// MapOrderPermute (toggled by verif.MapOrder): map ranges iterate in a
+// permuted order. The permutation policy (a rotation by 0..3 entries, forwards
+// or backwards: Go iterates from a random position and wraps around) is one
+// environment choice per MapOrder(true) section, made at the first map range
+// that has more than one entry and applied to every range of the section; it
+// yields every permutation of maps with up to 3 entries and 8 of the 24 of
+// 4-entry maps.
+var MapOrderPermute bool
+var mapPolicy = -1
+
+func permuteEntries(keys []*oent) []*oent {
+	n := len(keys)
+	if mapPolicy < 0 {
+		p := ex.choose(8)
+		old := mapPolicy
+		mapPolicy = p
+		jundo(func() { mapPolicy = old })
+	}
+	rot, rev := (mapPolicy%4)%n, mapPolicy >= 4
+	out := make([]*oent, 0, n)
+	for i := 0; i < n; i++ {
+		j := (rot + i) % n
+		if rev {
+			j = (rot - i + 2*n) % n
+		}
+		out = append(out, keys[j])
+	}
+	return out
 }
 
 func (it *omapIter) next() tuple {
